@@ -172,6 +172,11 @@ def run_prog_check(prop, props_files, tier, oracles, features=gen_prog.ALL, n_qu
             elif o == "c17wake":
                 for p_, msg, tag in proglayer.oracle_c17_wake(evs, term, cs):
                     found.append((msg, tag))
+            elif o == "c07await":
+                # only the rules about awaited JoinHandles of futures (C17: the result is delivered after the task is over)
+                for p_, msg, tag in proglayer.oracle_c07(evs, term, cs):
+                    if msg.startswith("awaiting the JoinHandle"):
+                        found.append((msg, tag))
             elif o == "c07":
                 for p_, msg, tag in proglayer.oracle_c07(evs, term, cs):
                     found.append((msg, tag))
